@@ -1208,6 +1208,251 @@ func TestVerifScanLoop(t *testing.T) {
 }
 
 // ---------------------------------------------------------------------------------------------
+// TestVerifScanLoopDirty: the REAL queueScanLoop with its dirty loop OPEN. Exactly 1 busy + 2 idle
+// channels: one dirty channel of three is 33 % > QueueScanDirtyPercent (25 %), so every tick that
+// finds expired in-flight work on the busy channel takes `goto loop` (TestVerifScanLoop, with >= 4
+// channels, never does). A stream of in-flight messages expires at every scan; a message requeued
+// with delay d and a message deferred by d wait on the busy channel and must be released.
+// Two variants, one NSQD each: QueueScanSelectionCount = default (20) and = number of channels + 1
+// (the boundary of `num > len(channels)`).
+//
+// Oracle (direct, on the implementation, load-independent). FAIL only on positive evidence:
+//   SCANNER-STOPPED  a parked message is still in deferredMessages >= max(40 intervals, 1 s) after it was
+//                    due, busy.timeoutCount has not moved for that long although the oldest in-flight
+//                    message of the channel is overdue by that long, while a control goroutine on the
+//                    harness's own ticker of the SAME period as the scan interval ran >= 40 times since
+//                    the last release (timers fire and the Go scheduler serves goroutines of this process).
+//   STARVED          as in TestVerifScanLoop: still parked although >= 10 further rounds of in-flight
+//                    timeouts of the same channel were released after the due time.
+// Anything else after the hard stop is SCANLOOPDIRTY-INCONCLUSIVE (a note). Early-side jitter never fails.
+// "repeats-entered=a/b": hook chan.scan.afterPQPop arms, during a dirty round, a probe in-flight message
+// that falls due 1 ns later (after that round's clock reading): a of b probes were released within half an
+// interval of being armed, which only the immediate re-scan does (information, never a failure; 0 of >= 3 prints
+// SCANLOOPDIRTY-NOREPEAT, a note).
+func TestVerifScanLoopDirty(t *testing.T) {
+	defer vfE1PanicGuard("the dirty-scan-loop scenario", nil)()
+	defer VerifClearHooks()
+	r := vfNewRand(83)
+	for _, variant := range []string{"default", "channels+1"} {
+		if !vfE1ScanLoopDirty(t, r, variant) {
+			t.Fail()
+			return // the scanner of this tree is broken: the second variant would only repeat it
+		}
+	}
+}
+
+func vfE1ScanLoopDirty(t *testing.T, r *vfRand, variant string) bool {
+	const nChannels = 3
+	opts := NewOptions()
+	opts.Logger = nil
+	opts.LogLevel = LOG_FATAL
+	opts.DataPath = t.TempDir()
+	opts.MemQueueSize = 1000
+	opts.QueueScanInterval = time.Duration(20+r.Intn(6)) * time.Millisecond
+	opts.QueueScanRefreshInterval = 50 * time.Millisecond
+	if variant == "channels+1" {
+		opts.QueueScanSelectionCount = nChannels + 1
+	}
+	interval := opts.QueueScanInterval
+	_, _, nsqd := mustStartNSQD(opts)
+	busy := nsqd.GetTopic("vf_dirty_busy").GetChannel("busy")
+	for i := 0; i < nChannels-1; i++ {
+		nsqd.GetTopic(fmt.Sprintf("vf_dirty_idle_%d", i)).GetChannel("idle")
+	}
+	time.Sleep(150 * time.Millisecond) // let the scan loop refresh its channel list
+	const streamN = 10
+	streamTimeout := time.Duration(8+r.Intn(8)) * time.Millisecond // < scan interval: expired at every scan
+	d := time.Duration(100+r.Intn(150)) * time.Millisecond
+
+	// probes: armed inside a dirty round, due 1 ns later => released by the immediate re-scan if there is one
+	var probeMu sync.Mutex
+	var probeArmedAt time.Time
+	probeN, probeFast, probeSeen := 0, 0, 0
+	VerifSetHook("chan.scan.afterPQPop", func(string) {
+		probeMu.Lock()
+		if !probeArmedAt.IsZero() {
+			probeMu.Unlock()
+			return
+		}
+		probeN++
+		id := 2000 + probeN
+		probeArmedAt = time.Now()
+		probeMu.Unlock()
+		busy.StartInFlightTimeout(&Message{ID: vfE1MsgID(id), Body: []byte("probe")}, 3, time.Nanosecond)
+	})
+
+	type arrival struct {
+		id int
+		at time.Time
+	}
+	arrivals := make(chan arrival, 16)
+	stop := make(chan struct{})
+	var ctlTicks int64
+	var wg sync.WaitGroup
+	wg.Add(2)
+	go func() { // the consumer that never answers
+		defer wg.Done()
+		for {
+			select {
+			case m := <-busy.memoryMsgChan:
+				id := vfE1IDNum(m.ID)
+				switch {
+				case id >= 2000: // a probe came back
+					probeMu.Lock()
+					probeSeen++
+					if time.Since(probeArmedAt) < interval/2 {
+						probeFast++
+					}
+					probeArmedAt = time.Time{}
+					probeMu.Unlock()
+				case id >= 1000:
+					arrivals <- arrival{id, time.Now()}
+				default:
+					busy.StartInFlightTimeout(m, 1, streamTimeout)
+				}
+			case <-stop:
+				return
+			}
+		}
+	}()
+	ctl := time.NewTicker(interval) // the control: same period as the scan loop's ticker, same runtime, same scheduler
+	go func() {
+		defer wg.Done()
+		defer ctl.Stop()
+		for {
+			select {
+			case <-ctl.C:
+				atomic.AddInt64(&ctlTicks, 1)
+			case <-stop:
+				return
+			}
+		}
+	}()
+	for i := 1; i <= streamN; i++ {
+		busy.PutMessage(&Message{ID: vfE1MsgID(i), Body: []byte("stream")})
+	}
+	time.Sleep(3 * interval) // the stream is cycling
+	reqMsg := &Message{ID: vfE1MsgID(1001), Body: []byte("requeued")}
+	busy.StartInFlightTimeout(reqMsg, 2, 10*time.Minute)
+	t0 := time.Now()
+	if err := busy.RequeueMessage(2, reqMsg.ID, d); err != nil {
+		t.Fatal(err)
+	}
+	busy.PutMessageDeferred(&Message{ID: vfE1MsgID(1002), Body: []byte("deferred")}, d)
+	due := t0.Add(d)
+	grace := 40 * interval
+	if grace < time.Second {
+		grace = time.Second
+	}
+	hardStop := due.Add(grace + 3*time.Second)
+	names := map[int]string{1001: "requeued with delay", 1002: "deferred by"}
+	parked := func() []int { // which of the two are still held by the channel's deferred map
+		var ids []int
+		busy.deferredMutex.Lock()
+		for _, id := range []int{1001, 1002} {
+			if _, ok := busy.deferredMessages[vfE1MsgID(id)]; ok {
+				ids = append(ids, id)
+			}
+		}
+		busy.deferredMutex.Unlock()
+		return ids
+	}
+	oldestInFlight := func(now time.Time) (int, time.Duration) { // (in flight, how long the root is overdue)
+		busy.inFlightMutex.Lock()
+		defer busy.inFlightMutex.Unlock()
+		if len(busy.inFlightPQ) == 0 {
+			return 0, 0
+		}
+		return len(busy.inFlightPQ), time.Duration(now.UnixNano() - busy.inFlightPQ[0].pri)
+	}
+	got := map[int]time.Time{}
+	lastCount := atomic.LoadUint64(&busy.timeoutCount)
+	lastMove, ticksAtMove := time.Now(), atomic.LoadInt64(&ctlTicks)
+	var countAtDue uint64
+	dueSeen := false
+	verdict, evidence := "", ""
+	for len(got) < 2 && verdict == "" {
+		select {
+		case a := <-arrivals:
+			got[a.id] = a.at
+		case <-time.After(5 * time.Millisecond):
+		}
+		now := time.Now()
+		ticks := atomic.LoadInt64(&ctlTicks)
+		if c := atomic.LoadUint64(&busy.timeoutCount); c != lastCount {
+			lastCount, lastMove, ticksAtMove = c, now, ticks
+		}
+		if !dueSeen && !now.Before(due) {
+			dueSeen = true
+			countAtDue = lastCount
+		}
+		if !dueSeen || now.Before(due.Add(grace)) {
+			continue
+		}
+		held := parked()
+		nInFlight, overdue := oldestInFlight(now)
+		silent, silentTicks := now.Sub(lastMove), ticks-ticksAtMove
+		rounds := (lastCount - countAtDue) / streamN
+		switch {
+		case len(held) > 0 && silent >= grace && silentTicks >= 40 && nInFlight > 0 && overdue >= grace:
+			verdict = "stopped"
+			evidence = fmt.Sprintf("the scan loop has released nothing for %v: timeoutCount of the channel stands at %d, %d messages are in flight and the oldest is overdue by %v, "+
+				"although a control goroutine on the harness's own %v ticker ran %d times since the last release",
+				silent.Round(time.Millisecond), lastCount, nInFlight, overdue.Round(time.Millisecond), interval, silentTicks)
+		case len(held) > 0 && rounds >= 10:
+			verdict = "starved"
+			evidence = fmt.Sprintf("although the scan loop released in-flight timeouts of the same channel in about %d scans since then", rounds)
+		case now.After(hardStop):
+			verdict = "inconclusive"
+			evidence = fmt.Sprintf("still parked %v, no release for %v, control ticks since %d, in flight %d, oldest overdue by %v, rounds since due %d",
+				held, silent.Round(time.Millisecond), silentTicks, nInFlight, overdue.Round(time.Millisecond), rounds)
+		}
+	}
+	close(stop)
+	wg.Wait()
+	VerifSetHook("chan.scan.afterPQPop", nil)
+	probeMu.Lock()
+	repeats := fmt.Sprintf("%d/%d", probeFast, probeSeen)
+	probeMu.Unlock()
+	scenario := fmt.Sprintf("variant %s: scan interval %v, selection count %d, 1 busy + %d idle channels (one dirty = %d %% > 25 %%), %d in-flight messages timing out every %v on the busy channel, REQ delay / defer %v, VERIF_SEED=%d",
+		variant, interval, opts.QueueScanSelectionCount, nChannels-1, 100/nChannels, streamN, streamTimeout, d, vfEnvInt("VERIF_SEED", 1))
+	ok := true
+	switch verdict {
+	case "stopped", "starved":
+		ok = false
+		var what []string
+		for _, id := range parked() {
+			what = append(what, fmt.Sprintf("the message %s %v", names[id], d))
+		}
+		fmt.Printf("ORACLE-FAIL %s: %s: still parked in deferredMessages %v after the delay ran out, %s (%s)\n",
+			map[string]string{"stopped": "SCANNER-STOPPED", "starved": "STARVED"}[verdict], strings.Join(what, " and "),
+			time.Since(due).Round(time.Millisecond), evidence, scenario)
+	case "inconclusive":
+		fmt.Printf("SCANLOOPDIRTY-INCONCLUSIVE too little evidence to judge: %s (%s)\n", evidence, scenario)
+	default:
+		worst := time.Duration(0)
+		for _, at := range got {
+			if l := at.Sub(due); l > worst {
+				worst = l
+			}
+		}
+		fmt.Printf("SCANLOOPDIRTY-OK lateness=%v repeats-entered=%s timeouts=%d (%s)\n", worst.Round(time.Millisecond), repeats, atomic.LoadUint64(&busy.timeoutCount), scenario)
+	}
+	if probeSeen >= 3 && probeFast == 0 {
+		fmt.Printf("SCANLOOPDIRTY-NOREPEAT none of %d dirty rounds was followed by an immediate re-scan (the probe armed in the round waited for the next tick): the 25 %% dirty loop of queueScanLoop is not taken on this tree; lateness is unaffected (%s)\n", probeSeen, scenario)
+	}
+	// a stopped scanner never leaves queueScanLoop, so NSQD.Exit() would wait for ever: bounded wait
+	exited := make(chan struct{})
+	go func() { nsqd.Exit(); close(exited) }()
+	select {
+	case <-exited:
+	case <-time.After(2 * time.Second):
+		fmt.Printf("SCANLOOPDIRTY-NOTE NSQD.Exit() did not return within 2s (variant %s, verdict %q): abandoned\n", variant, verdict)
+	}
+	return ok
+}
+
+// ---------------------------------------------------------------------------------------------
 // TestVerifScanWindowReplay: hook-steered replay, on the real Channel, of the schedule of
 // Props.C04.never_early_micro_false (known finding C04 `scan-window-requeue`): between the scan's
 // heap pop and its map pop (hook point chan.scan.afterPQPop) the holder REQs the message with delay
